@@ -1,21 +1,23 @@
 (** C02.3 -- steady-state, time-path and derivative evaluation agree: the accumulator carries the steady-state
     value, and on the steady-state path (zero shock, same initial steady state, ANY horizon T or the infinite
-    semantics) every output path is constant at its steady-state value: zero deviations. *)
+    semantics) every output path is constant at its steady-state value: zero deviations.  Division and powers included. *)
 From Coq Require Import ZArith Bool List Ring.
 From SSJ Require Import Lib.Sums Model.Shift Model.Sparse Gen.MultiplyBasis Gen.ComputeL Model.SimpleBlk Proofs.SimpleBlkProofs.
 Import ListNotations.
 Open Scope Z_scope.
 
-Theorem ss_td_jac_agree : forall (R : Type) (rO rI : R) (radd rmul rsub : R -> R -> R) (ropp : R -> R),
+Theorem ss_td_jac_agree : forall (R : Type) (rO rI : R) (radd rmul rsub : R -> R -> R) (ropp : R -> R) (rdiv : R -> R -> R) (rinv : R -> R),
   ring_theory rO rI radd rmul rsub ropp eq ->
+  (forall a b, rdiv a b = rmul a (rinv b)) -> (forall a, a <> rO -> rmul (rinv a) a = rI) -> (forall a, a <> rO -> rmul a a <> rO) ->
   forall tiny : R -> bool, (forall x, tiny x = true -> x = rO) ->
   forall ss x0 e,
-  a_value R (accum R rI radd rmul rsub ropp tiny ss x0 e) = eval_ss R radd rmul rsub ropp ss e
-  /\ forall T env t, (forall x u, env x u = ss x) -> eval_td R radd rmul rsub ropp T ss ss env e t = eval_ss R radd rmul rsub ropp ss e.
+  (divs_ok R rO rI radd rmul rsub ropp rdiv ss e ->
+   a_value R (accum R rO rI radd rmul rsub ropp rdiv tiny ss x0 e) = eval_ss R rI radd rmul rsub ropp rdiv ss e)
+  /\ forall T env t, (forall x u, env x u = ss x) -> eval_td R rI radd rmul rsub ropp rdiv T ss ss env e t = eval_ss R rI radd rmul rsub ropp rdiv ss e.
 Proof.
-  intros R rO rI radd rmul rsub ropp Rth tiny Ht ss x0 e. split.
-  - pose proof (accum_correct R rO rI radd rmul rsub ropp Rth tiny Ht ss x0 e) as H.
-    destruct (accum R rI radd rmul rsub ropp tiny ss x0 e); cbn in *; symmetry; tauto.
+  intros R rO rI radd rmul rsub ropp rdiv rinv Rth Hd Hi Hs tiny Ht ss x0 e. split.
+  - intros Hok. pose proof (accum_correct R rO rI radd rmul rsub ropp rdiv rinv Rth Hd Hi Hs tiny Ht ss x0 e Hok) as H.
+    destruct (accum R rO rI radd rmul rsub ropp rdiv tiny ss x0 e); cbn in *; symmetry; tauto.
   - intros; apply ss_td_agree; assumption.
 Qed.
 Print Assumptions ss_td_jac_agree.
